@@ -12,13 +12,12 @@
      positions, capture registers and continuations; hence the same FindStringSubmatchIndex vector.
    * for every defect class a refutation with a concrete (tree, subject) witness, by vm_compute.
 
-   WHAT IS MISSING for the unconditional `go_accepts e -> avoids_defects e -> simp e ≈ e` with a purely
-   syntactic avoids_defects:  the structural induction over [walk_a] (nested fixpoints over argument lists
-   with the flag / capture-index state of [den] threaded through) that would show that [certified] holds for
-   every tree avoiding the guards of the per-rule lemmas.  [certified] is instead evaluated by the kernel on
-   every case of the tie (and must be false wherever the oracle found a difference).
-   Also not a theorem: that Go's regexp parses the TEXT of the rewrite to the tree [simp_ast] (the re-lexing
-   defects live there); the tie checks it per case by certifying den(simp_ast e) against den(parse(text)). *)
+   STATUS OF THE GAP named in the first version of this file: the induction over [walk_a] now exists for the
+   capture-free, flag-free fragment (Proofs_RegexWalk.walk_sound / simplify_sound_fragment), with syntactic
+   guards.  [certified] remains the route for trees with captures or flags and for prefix/suffix factoring.
+   Still not a theorem: that Go's regexp parses the TEXT of the rewrite to the tree [simp_ast] (the re-lexing
+   defects live there); the tie checks it per case by certifying den(pattern tree) against den(parse(final text)).
+   The *_prefix_refuted lemmas are about the simplifier before the fix commits (walk false). *)
 From GC Require Import Base Model_Regex Model_RegexSimplify Proofs_Regex Proofs_RegexRules.
 Local Open Scope nat_scope.
 
